@@ -203,7 +203,7 @@ def _worker(job):
             unit.run_split(ctx, split)
         except Unsupported as u:
             out["unsupported"] = "%s [%s split=%r]" % (u, unit_cls, split)
-        out["records"] = ctx.records
+        out["records"] = compress_records(ctx.records)
         out["paths"] = eng.n_paths
         out["infeasible"] = eng.n_infeasible
         out["solver_time"] = eng.solver_time
@@ -218,6 +218,26 @@ def _worker(job):
     except Exception:
         out["error"] = traceback.format_exc()
     out["wall"] = time.time() - t0
+    return out
+
+
+def compress_records(records):
+    """One aggregated record per discharged obligation name (count + first sample + time)."""
+    agg = {}
+    out = []
+    for r in records:
+        if r["status"] == "discharged":
+            a = agg.get(r["name"])
+            if a is None:
+                a = agg[r["name"]] = {"name": r["name"], "status": "discharged", "unit": r["unit"],
+                                      "count": 0, "time_s": 0.0, "sample": r.get("sample")}
+                out.append(a)
+            a["count"] += 1
+            a["time_s"] += r.get("time_s", 0.0) or 0.0
+        else:
+            r = dict(r)
+            r["count"] = 1
+            out.append(r)
     return out
 
 
